@@ -88,13 +88,45 @@ end Generic
 
 /-! ## `Facts` instance -/
 
-/-- values: integers and one-level objects — enough to reach every branch of `set_nested` /
-`set_nested_in_value` (success, `FieldNotFound` on the root, `FieldNotFound` on an inner field,
-`TypeMismatch`). -/
-inductive Val where
+/-- non-container values of `types::Value`; floats are carried as their bit pattern, strings /
+expressions as text.  `null`, `false`, `0`, `""` are ordinary PRESENT values: a key that holds one of
+them is not absent (`Cell.val = some …` versus `none`). -/
+inductive VScalar where
+  | null
+  | bool (b : Bool)
   | int (n : Int)
-  | obj (fields : List (Nat × Int))
+  | num (bits : Nat)
+  | str (s : String)
+  | expr (s : String)
 deriving Repr, DecidableEq, Inhabited
+
+/-- values that are not objects (`set_nested_in_value` answers `TypeMismatch` on all of them): a
+scalar or an array of scalars (possibly empty) -/
+inductive VLeaf where
+  | sc (s : VScalar)
+  | arr (xs : List VScalar)
+deriving Repr, DecidableEq, Inhabited
+
+/-- one level of `Value::Object`: a non-object or an object whose members are of type `α`; the
+members are kept as an association list sorted by field (the canonical form in which objects are
+printed and compared) -/
+inductive VNode (α : Type) where
+  | leaf (l : VLeaf)
+  | obj (fields : List (Nat × α))
+deriving Repr, DecidableEq, Inhabited
+
+/-- values: non-objects and objects nested up to two levels (`{f: {g: leaf}}`) — enough to reach
+every branch of `set_nested` / `set_nested_in_value` (success at either level, `FieldNotFound` on the
+root, `FieldNotFound` on an inner field, `TypeMismatch` on a non-object parent of every kind: null,
+scalar, array) and every "looks like nothing" value: null, false, 0, "", [], {}, {f: null}. -/
+abbrev Val1 := VNode VLeaf
+abbrev Val := VNode Val1
+
+def VLeaf.null : VLeaf := .sc .null
+def VLeaf.int (n : Int) : VLeaf := .sc (.int n)
+def Val1.int (n : Int) : Val1 := .leaf (.int n)
+def Val.null : Val := .leaf .null
+def Val.int (n : Int) : Val := .leaf (.int n)
 
 /-- one top-level key: its entry in `data` and whether it has an entry in `fact_types` -/
 structure Cell where
@@ -110,37 +142,58 @@ inductive Op where
   | begin | commit | rollback
   /-- `facts.set(k, v)` -/
   | set (k : Nat) (v : Val)
-  /-- `facts.set_nested("k.p1.p2…", Integer v)`; `path = []` is the one-component path -/
-  | setNested (k : Nat) (path : List Nat) (v : Int)
+  /-- `facts.set_nested("k.p1.p2…", v)` with a non-object `v`; `path = []` is the one-component path -/
+  | setNested (k : Nat) (path : List Nat) (v : VLeaf)
   /-- `facts.remove(k)` -/
   | remove (k : Nat)
 deriving Repr, DecidableEq
 
 /-- `HashMap::insert` on an object, kept as an association list sorted by field (the canonical
 form in which objects are printed and compared) -/
-def insertField : List (Nat × Int) → Nat → Int → List (Nat × Int)
+def insertField {α : Type} : List (Nat × α) → Nat → α → List (Nat × α)
   | [], f, v => [(f, v)]
   | e :: es, f, v =>
     if f < e.1 then (f, v) :: e :: es
     else if f = e.1 then (f, v) :: es
     else e :: insertField es f v
 
+/-- `HashMap::get_mut` on an object -/
+def lookupField {α : Type} : List (Nat × α) → Nat → Option α
+  | [], _ => none
+  | e :: es, f => if e.1 = f then some e.2 else lookupField es f
+
+/-- `set_nested_in_value` on a non-object: the empty path returns `Ok(())` untouched, any other path
+is a `TypeMismatch` (both the `path.len() == 1` and the "continue navigating" arm) -/
+def leafSetIn (cur : VLeaf) (path : List Nat) (_ : VLeaf) : Except Err VLeaf :=
+  match path with
+  | [] => .ok cur
+  | _ :: _ => .error .typeMismatch
+
+/-- one level of `set_nested_in_value` (`child` is the same function one level down, `inj` embeds
+the written value at this level): empty path → `Ok`; non-object → `TypeMismatch` (null, scalars and
+arrays alike — a null / empty parent is NOT created on the way); last component → `insert`;
+otherwise `get_mut` the member (absent → `FieldNotFound`) and recurse. -/
+def VNode.setIn {α : Type} (child : α → List Nat → VLeaf → Except Err α) (inj : VLeaf → α) :
+    VNode α → List Nat → VLeaf → Except Err (VNode α)
+  | c, [], _ => .ok c
+  | .leaf _, _ :: _, _ => .error .typeMismatch
+  | .obj fs, [f], v => .ok (.obj (insertField fs f (inj v)))
+  | .obj fs, f :: g :: p, v =>
+    match lookupField fs f with
+    | none => .error .fieldNotFound
+    | some c =>
+      match child c (g :: p) v with
+      | .ok c' => .ok (.obj (insertField fs f c'))
+      | .error e => .error e
+
 /-- `set_nested_in_value` on a value, for a non-empty remaining path -/
-def setIn (cur : Val) (path : List Nat) (v : Int) : Except Err Val :=
-  match cur, path with
-  | c, [] => .ok c
-  | .obj fs, [f] => .ok (.obj (insertField fs f v))
-  | .int _, [_] => .error .typeMismatch
-  | .obj fs, f :: _ :: _ =>
-    -- descend into field f: absent → FieldNotFound; present → it is an integer, and the
-    -- recursive call on a non-object with a non-empty path is a TypeMismatch
-    if fs.any (·.1 = f) then .error .typeMismatch else .error .fieldNotFound
-  | .int _, _ :: _ :: _ => .error .typeMismatch
+def setIn (cur : Val) (path : List Nat) (v : VLeaf) : Except Err Val :=
+  VNode.setIn (VNode.setIn leafSetIn id) .leaf cur path v
 
 /-- result of `set_nested` on the current cell -/
-def setNestedRes (c : Cell) (path : List Nat) (v : Int) : Except Err Cell :=
+def setNestedRes (c : Cell) (path : List Nat) (v : VLeaf) : Except Err Cell :=
   match path with
-  | [] => .ok { c with val := some (.int v) }       -- `parts.len() == 1`: plain insert
+  | [] => .ok { c with val := some (.leaf v) }      -- `parts.len() == 1`: plain insert
   | _ :: _ =>
     match c.val with
     | none => .error .fieldNotFound                   -- root key missing
@@ -149,7 +202,7 @@ def setNestedRes (c : Cell) (path : List Nat) (v : Int) : Except Err Cell :=
       | .ok r => .ok { c with val := some r }
       | .error e => .error e
 
-def setNestedCell (path : List Nat) (v : Int) (c : Cell) : Cell :=
+def setNestedCell (path : List Nat) (v : VLeaf) (c : Cell) : Cell :=
   match setNestedRes c path v with
   | .ok c' => c'
   | .error _ => c
